@@ -367,3 +367,26 @@ Proof.
   intros Ha R0 R1 Hm Hr Hr10 Ht t. rewrite (std_arm_exec ir m f dst Ha).
   exact (alu_std_sized_final ir f dst r m a b R0 R1 Hm Hr Hr10 Ht).
 Qed.
+
+(* ---- BIT sets the N and Z (and clears C) that the AND of the same operands sets ---- *)
+Theorem bit_and_same_nz irb ira m a b r :
+  (iopcode irb = 56 \/ iopcode irb = 58 \/ iopcode irb = 59) ->
+  (iopcode ira = 248 \/ iopcode ira = 250 \/ iopcode ira = 251) ->
+  read_op irb 0 m = Ok a m -> read_op irb 1 m = Ok b m -> read_op ira 0 m = Ok a m -> read_op ira 1 m = Ok b m ->
+  omode (get_op ira 2) = MRegister -> oreg (get_op ira 2) = Some r -> 0 <= r <= 10 ->
+  otype (op1 irb) = otype (get_op ira 2) -> otype (get_op ira 2) <> DNone ->
+  exists mb ma, exec irb m = Ok (ilen irb) mb /\ exec ira m = Ok (ilen ira) ma
+    /\ flag F_N mb = flag F_N ma /\ flag F_Z mb = flag F_Z ma /\ flag F_C mb = false /\ flag F_C ma = false
+    /\ (forall i, 0 <= i <= 15 -> i <> 11 -> R mb i = R m i).
+Proof.
+  intros Hb Ha B0 B1 A0 A1 Hm Hr Hr10 Et Nn.
+  rewrite (exec_bit irb m Hb), B0. cbn [bind]. rewrite B1. cbn [bind].
+  destruct (alu_std_sized_final ira Z.land 2 r m a b A0 A1 Hm Hr Hr10 Nn) as [ma [Ea Oa]].
+  rewrite (exec_and3 ira m Ha), Ea.
+  eexists. exists ma. split; [reflexivity|]. split; [reflexivity|].
+  destruct Oa as [_ On Oz _ Oc _ _]. rewrite On, Oz, Oc.
+  assert (Nb : otype (op1 irb) <> DNone) by (rewrite Et; exact Nn).
+  rewrite set_nz_flags_sized by exact Nb. rewrite Et.
+  split; [flags; reflexivity|]. split; [flags; reflexivity|]. split; [flags; reflexivity|]. split; [reflexivity|].
+  intros i Hi N. unfold set_v, set_c, set_z, set_n. rewrite !R_setf_other by lia. reflexivity.
+Qed.
